@@ -182,4 +182,151 @@ theorem mem_create (c : Clock) (k : Nat) (s : SimClk) :
     · exact Or.inl h
     · exact Or.inr ⟨j, hj, rfl⟩
 
+/-! ### user code inside `step_forward`: `evalCalls`, `stepForwardRe` -/
+
+/-- the labels handed to `move_simulants_to_end` before the pipeline evaluation ended (normally, or in the first
+modifier that raised) -/
+def made : List ModCall → List Nat
+  | [] => []
+  | m :: ms => if m.raises then (if m.reqFirst then m.req else []) else m.req ++ made ms
+
+theorem moveToEnd_eq (c : Clock) (ids : List Nat) : ∃ sn, moveToEnd c ids = { c with snooze := sn } := by
+  unfold moveToEnd; split
+  · exact ⟨c.snooze, rfl⟩
+  · exact ⟨_, rfl⟩
+
+theorem mem_moveToEnd' (c : Clock) (ids : List Nat) (i : Nat) :
+    i ∈ (moveToEnd c ids).snooze ↔ i ∈ c.snooze ∨ i ∈ ids := by
+  unfold moveToEnd
+  split
+  · rename_i h; simp at h; subst h; simp
+  · simp only [List.mem_append, List.mem_filter]
+    constructor
+    · rintro (h | ⟨h, _⟩)
+      · exact Or.inl h
+      · exact Or.inr h
+    · rintro (h | h)
+      · exact Or.inl h
+      · by_cases hc : i ∈ c.snooze
+        · exact Or.inl hc
+        · exact Or.inr ⟨h, by simpa using hc⟩
+
+/-- the evaluation touches nothing but the pending set -/
+theorem evalCalls_eq (c : Clock) (calls : List ModCall) : ∃ sn, (evalCalls c calls).1 = { c with snooze := sn } := by
+  induction calls generalizing c with
+  | nil => exact ⟨c.snooze, rfl⟩
+  | cons m ms ih =>
+    unfold evalCalls
+    split
+    · split
+      · exact moveToEnd_eq c m.req
+      · exact ⟨c.snooze, rfl⟩
+    · obtain ⟨sn, h⟩ := ih (moveToEnd c m.req)
+      obtain ⟨sn', h'⟩ := moveToEnd_eq c m.req
+      rw [h, h']; exact ⟨sn, rfl⟩
+
+/-- … which it grows by exactly the requests that were made -/
+theorem mem_evalCalls (c : Clock) (calls : List ModCall) (i : Nat) :
+    i ∈ (evalCalls c calls).1.snooze ↔ i ∈ c.snooze ∨ i ∈ made calls := by
+  induction calls generalizing c with
+  | nil => simp [evalCalls, made]
+  | cons m ms ih =>
+    unfold evalCalls made
+    split
+    · split
+      · exact mem_moveToEnd' c m.req i
+      · simp
+    · rw [ih, mem_moveToEnd', List.mem_append, or_assoc]
+
+/-- it raises exactly when one of the modifiers does -/
+theorem evalCalls_raised (c : Clock) (calls : List ModCall) : (evalCalls c calls).2 = calls.any (·.raises) := by
+  induction calls generalizing c with
+  | nil => rfl
+  | cons m ms ih =>
+    unfold evalCalls
+    split
+    · rename_i h; simp [h]
+    · rename_i h; simp [h, ih]
+
+/-- when nobody raises, the requests made during the evaluation are the same as requests made by listeners
+(`Act.toEnd`) just before the update -/
+theorem evalCalls_as_acts (c : Clock) (calls : List ModCall) (h : (evalCalls c calls).2 = false) :
+    (evalCalls c calls).1 = (calls.map fun m => Act.toEnd m.req).foldl act c := by
+  induction calls generalizing c with
+  | nil => rfl
+  | cons m ms ih =>
+    unfold evalCalls at h ⊢
+    split at h
+    · simp at h
+    · rename_i hr
+      simp only [hr, Bool.false_eq_true, ↓reduceIte, List.map_cons, List.foldl_cons, act]
+      exact ih _ h
+
+/-- the pipeline is evaluated: non-empty population, every pending label has a row, somebody is updated -/
+def Evaluated (c : Clock) : Prop :=
+  c.sims.isEmpty = false ∧ c.snooze.all (knows c) = true ∧ c.sims.any (needsUpdate c (c.now + c.step)) = true
+
+/-- the `.loc` assignment of the parked step finds all its rows -/
+def locOk (c c1 : Clock) : Bool :=
+  c1.snooze.all (knows c) && c.sims.all (fun s => !c1.snooze.contains s.id || needsUpdate c (c.now + c.step) s)
+
+/-- the five ways a call of `step_forward` can go -/
+theorem stepForwardRe_cases (c : Clock) (mods : Nat → List (Option Nat)) (calls : List ModCall) :
+    (¬ Evaluated c ∧ (c.sims.isEmpty = true ∨ c.snooze.all (knows c) = true) ∧
+        stepForwardRe c mods calls = (stepForward c mods, .done)) ∨
+    (c.sims.isEmpty = false ∧ c.snooze.all (knows c) = false ∧
+        stepForwardRe c mods calls = (failedAt c (c.now + c.step), .popError)) ∨
+    (Evaluated c ∧ (evalCalls c calls).2 = true ∧
+        stepForwardRe c mods calls = (failedAt (evalCalls c calls).1 (c.now + c.step), .raised)) ∨
+    (Evaluated c ∧ (evalCalls c calls).2 = false ∧ locOk c (evalCalls c calls).1 = true ∧
+        stepForwardRe c mods calls = (stepForward (evalCalls c calls).1 mods, .done)) ∨
+    (Evaluated c ∧ (evalCalls c calls).2 = false ∧ locOk c (evalCalls c calls).1 = false ∧
+        stepForwardRe c mods calls = (failedAt (evalCalls c calls).1 (c.now + c.step), .keyError)) := by
+  by_cases h1 : c.sims.isEmpty = true
+  · left
+    refine ⟨fun h => (by rw [h.1] at h1; cases h1), Or.inl h1, ?_⟩
+    unfold stepForwardRe; simp [h1]
+  · have h1' : c.sims.isEmpty = false := by simpa using h1
+    by_cases h2 : c.snooze.all (knows c) = true
+    · by_cases h3 : c.sims.any (needsUpdate c (c.now + c.step)) = true
+      · have hev : Evaluated c := ⟨h1', h2, h3⟩
+        by_cases h4 : (evalCalls c calls).2 = true
+        · right; right; left
+          refine ⟨hev, h4, ?_⟩
+          unfold stepForwardRe; simp [h1', h2, h3, h4]
+        · have h4' : (evalCalls c calls).2 = false := by simpa using h4
+          by_cases h5 : locOk c (evalCalls c calls).1 = true
+          · right; right; right; left
+            refine ⟨hev, h4', h5, ?_⟩
+            unfold locOk at h5
+            unfold stepForwardRe; simp only [h1', h2, h3, h4', h5]; simp
+          · right; right; right; right
+            have h5' : locOk c (evalCalls c calls).1 = false := by simpa using h5
+            refine ⟨hev, h4', h5', ?_⟩
+            unfold locOk at h5
+            unfold stepForwardRe; simp only [h1', h2, h3, h4', h5]; simp
+      · left
+        refine ⟨fun h => h3 h.2.2, Or.inr h2, ?_⟩
+        have h3' : c.sims.any (needsUpdate c (c.now + c.step)) = false := by simpa using h3
+        unfold stepForwardRe; simp only [h1', h2, h3']; simp
+    · right; left
+      have h2' : c.snooze.all (knows c) = false := by simpa using h2
+      refine ⟨h1', h2', ?_⟩
+      unfold stepForwardRe; simp only [h1', h2']; simp
+
+theorem locOk_self (c : Clock) (hk : c.snooze.all (knows c) = true) : locOk c c = true := by
+  unfold locOk
+  simp only [hk, Bool.true_and, List.all_eq_true]
+  intro s _
+  cases h : c.snooze.contains s.id
+  · simp
+  · simp only [needsUpdate, h, Bool.or_true, Bool.not_true]
+
+/-- a pending label that has a row puts that row into the update set -/
+theorem pending_known_updates (c : Clock) (t : Int) (i : Nat) (hi : i ∈ c.snooze) (hk : knows c i = true) :
+    c.sims.any (needsUpdate c t) = true := by
+  simp only [knows, List.any_eq_true, beq_iff_eq] at hk ⊢
+  obtain ⟨s, hs, rfl⟩ := hk
+  exact ⟨s, hs, by simp [needsUpdate, hi]⟩
+
 end Viv.Clock
